@@ -55,15 +55,78 @@ def parse_key(key):
     raise Undecided("unrecognised lmfit parameter key %r" % (parts,))
 
 
+class FlagWord(PyObj):
+    """an integer used as a set of flag bits (16-bit vector)"""
+    W = 16
+
+    def __init__(self, bv):
+        self.bv = bv
+
+    @staticmethod
+    def of(v):
+        if isinstance(v, FlagWord):
+            return v.bv
+        if isinstance(v, bool):
+            v = int(v)
+        if isinstance(v, int):
+            return z3.BitVecVal(v, FlagWord.W)
+        if isinstance(v, float) and v == int(v):
+            return z3.BitVecVal(int(v), FlagWord.W)
+        raise Undecided("flag arithmetic with %r" % (v,))
+
+    @staticmethod
+    def fresh(name, within=0x7F):
+        bv = z3.BitVec(name, FlagWord.W)
+        return FlagWord(bv), (bv & z3.BitVecVal((~within) & 0xFFFF, FlagWord.W)) == 0
+
+    def binop_(self, ctx, op, other, swapped):
+        name = op[1:] if op.startswith('i') and op[1:] in ('or', 'and', 'xor', 'add') else op
+        if name in ('or', 'and', 'xor'):
+            o = FlagWord.of(other)
+            return FlagWord({'or': self.bv | o, 'and': self.bv & o, 'xor': self.bv ^ o}[name])
+        if name == 'add':
+            return FlagWord(self.bv + FlagWord.of(other))
+        if name in ('Eq', 'NotEq'):
+            r = Sym(self.bv == FlagWord.of(other))
+            return r if name == 'Eq' else Sym(z3.Not(r.e))
+        return NotImplemented
+
+    def truth_(self, ctx):
+        return ctx.branch(Sym(self.bv != 0))
+
+    def int_(self, ctx):
+        return self
+
+    def subset_of(self, mask):
+        return Sym((self.bv & z3.BitVecVal((~mask) & 0xFFFF, FlagWord.W)) == 0)
+
+    def has(self, bit):
+        return Sym((self.bv & z3.BitVecVal(bit, FlagWord.W)) != 0)
+
+
 class ParamRef(PyObj):
     def __init__(self, params, i, pname):
         self.params, self.i, self.pname = params, i, pname
 
     def getattr_(self, ctx, name):
         P = self.params
+        if name == 'value' and self.pname == 'flags':
+            fw = getattr(P, 'flagword', None)
+            if fw is not None:
+                return fw(self.i)
         if name in ('value', 'vary', 'stderr', 'min', 'max'):
             v = P.read(ctx, name, self.i, self.pname)
             return v
+        if name == 'set':
+            def _set(c, **kw):
+                for k, v in kw.items():
+                    if k in ('value', 'vary', 'min', 'max'):
+                        if isinstance(v, Opaque):
+                            continue
+                        P.write(c, k, self.i, self.pname, v)
+                    else:
+                        raise Undecided("Parameter.set(%s=...)" % k)
+            return Model(_set, 'Parameter.set')
         raise Undecided("Parameter.%s" % name)
 
     def setattr_(self, ctx, name, value):
